@@ -45,6 +45,12 @@ func onlyStoreField(name, path string) side {
 	}
 }
 
+// onlyStoreFieldH is onlyStoreField after resolving helper parameters up to the handler.
+func onlyStoreFieldH(p *core.Program, h *core.Handler, name, path string) side {
+	base := onlyStoreField(name, path)
+	return func(pr core.Prov) bool { return base(pr) || base(p.ResolveToEntry(pr, h.Fn)) }
+}
+
 func ctxIs(method string) side {
 	return func(pr core.Prov) bool { return pr.HasCtx(method) }
 }
